@@ -248,31 +248,63 @@ func ruleARI5(p *Program) *RuleResult {
 	if err != nil {
 		return r.anchorFail(err)
 	}
-	calls := map[string]*ssa.Call{}
-	for _, ec := range evaluateCalls(fn) {
-		calls[strings.TrimPrefix(ec.recv, "field:")] = ec.call
-	}
-	var opCall *ssa.Call
-	for _, b := range fn.Blocks {
-		for _, ins := range b.Instrs {
-			if c, ok := ins.(*ssa.Call); ok && !c.Common().IsInvoke() && c.Common().StaticCallee() == nil {
-				if ld, ok := c.Common().Value.(*ssa.UnOp); ok {
-					if fa, ok := ld.X.(*ssa.FieldAddr); ok && fieldName(fa) == "Op" {
-						opCall = c
-					}
-				}
+	// operands carry their side; From / Normalize keep it; the operator (a function-valued
+	// field of the node) is answered by the dynamic-call model, which records the sides it is given
+	sideOfArg := func(v aval) string {
+		for _, n := range v.notes {
+			if strings.HasPrefix(n, "side:") {
+				return strings.TrimPrefix(n, "side:")
 			}
 		}
+		return "?"
 	}
-	if calls["Left"] == nil || calls["Right"] == nil || opCall == nil {
-		r.undecided("ArithmeticExpression|shape", "operand Evaluate calls and the e.Op call", p.pos(fn.Pos()), "unsupported shape")
-		return r
+	var opArgs []string
+	runOp := func(opResult aval) (*result, *operandEnv) {
+		an := newAnalyzer()
+		an.maxBlocks = 250
+		opArgs = nil
+		oe := newOperandEnv()
+		oe.results["field:Left"] = okTuple(coll(nonnil("side:L")))
+		oe.results["field:Right"] = okTuple(coll(nonnil("side:R")))
+		oe.next = func(cc *ssa.CallCommon, args []aval) (aval, bool) {
+			if sc := cc.StaticCallee(); sc != nil && strings.HasSuffix(fnPkgPath(sc), "/fhirpath/system") && len(args) > 0 {
+				switch sc.Name() {
+				case "From":
+					return okTuple(args[0]), true
+				case "Normalize":
+					return args[0], true
+				}
+			}
+			return aval{}, false
+		}
+		an.callModel = oe.model()
+		an.dynModel = func(fv aval, args []aval) (aval, bool) {
+			if hasNote(fv, "operator") && len(args) == 2 {
+				opArgs = append(opArgs, sideOfArg(args[0])+","+sideOfArg(args[1]))
+				return opResult, true
+			}
+			return aval{}, false
+		}
+		res := an.analyze(fn, []aval{nodeReceiver(fn, map[string]aval{"Op": nonnil("operator")}), nonnil("ctx"), top})
+		return res, oe
 	}
-	// the operands handed to Op are (left, right) after From+Normalize
-	if sideOf(opCall.Common().Args[0], 0) != "L" || sideOf(opCall.Common().Args[1], 0) != "R" {
-		r.bad("ArithmeticExpression|operand-order", "e.Op is not called with (left, right)", p.instrPos(opCall), "operands swapped or not derived from the two sub-expressions")
-	} else {
-		r.ok("ArithmeticExpression|operand-order", "e.Op(left, right)", p.instrPos(opCall), "provenance of both arguments", true)
+	{
+		_, oe := runOp(aval{k: kTuple, tup: []aval{st.intItem(7), {k: kNil}}})
+		if !oe.evaluated["field:Left"] || !oe.evaluated["field:Right"] || len(opArgs) == 0 {
+			r.undecided("ArithmeticExpression|shape", "the operands are not both evaluated or e.Op is not called on singleton operands", p.pos(fn.Pos()), "unsupported shape")
+			return r
+		}
+		okOrder := true
+		for _, a := range opArgs {
+			if a != "L,R" {
+				okOrder = false
+			}
+		}
+		if okOrder {
+			r.ok("ArithmeticExpression|operand-order", "e.Op(left, right)", p.pos(fn.Pos()), "operand sides tracked through From/Normalize by tag", true)
+		} else {
+			r.bad("ArithmeticExpression|operand-order", "e.Op is called with ("+strings.Join(opArgs, " / ")+"), not (left, right)", p.pos(fn.Pos()), "operands swapped or not derived from the two sub-expressions")
+		}
 	}
 	for _, c := range []struct{ name string; res aval; want string }{
 		{"overflow", aval{k: kTuple, tup: []aval{{k: kNil}, nonnil("system.ErrIntOverflow")}}, "{}"},
@@ -282,25 +314,7 @@ func ruleARI5(p *Program) *RuleResult {
 		{"success", aval{k: kTuple, tup: []aval{st.intItem(7), {k: kNil}}}, "=7"},
 	} {
 		r.count("hypotheses", 1)
-		an := newAnalyzer()
-		an.maxBlocks = 250
-		an.pin[calls["Left"]] = okTuple(sliceLen(1))
-		an.pin[calls["Right"]] = okTuple(sliceLen(1))
-		an.pin[opCall] = c.res
-		an.callModel = func(cc *ssa.CallCommon, args []aval) (aval, bool) {
-			if sc := cc.StaticCallee(); sc != nil {
-				switch sc.Name() {
-				case "From":
-					if strings.HasSuffix(fnPkgPath(sc), "/fhirpath/system") {
-						return okTuple(nonnil("sys")), true
-					}
-				case "Normalize":
-					return nonnil("sys"), true
-				}
-			}
-			return aval{}, false
-		}
-		res := an.analyze(fn, []aval{nonnil("e"), nonnil("ctx"), top})
+		res, _ := runOp(c.res)
 		got := arithOutcome(res)
 		if strings.HasPrefix(got, "err:") {
 			got = "error"
@@ -318,17 +332,18 @@ func ruleARI5(p *Program) *RuleResult {
 	if err != nil {
 		return r.anchorFail(err)
 	}
-	ecs := evaluateCalls(neg)
-	if len(ecs) != 1 {
-		r.undecided("NegationExpression|shape", "operand Evaluate call", p.pos(neg.Pos()), "unsupported shape")
-		return r
-	}
 	for _, v := range intPool {
 		r.count("hypotheses", 1)
 		an := newAnalyzer()
 		an.maxBlocks = 250
-		an.pin[ecs[0].call] = okTuple(coll(st.intItem(v)))
-		res := an.analyze(neg, []aval{nonnil("e"), nonnil("ctx"), top})
+		oe := newOperandEnv()
+		oe.results["field:Expr"] = okTuple(coll(st.intItem(v)))
+		an.callModel = oe.model()
+		res := an.analyze(neg, []aval{nodeReceiver(neg, nil), nonnil("ctx"), top})
+		if !oe.evaluated["field:Expr"] {
+			r.undecided("NegationExpression|shape", "the operand is not evaluated", p.pos(neg.Pos()), "unsupported shape")
+			return r
+		}
 		want := fmt.Sprintf("=%d", -v)
 		if -v > maxI32 {
 			want = "{}"
